@@ -246,7 +246,52 @@ class Ctx:
         return p
 
     # ---------------------------------------------------------------- TLC
-    def tlc(self, stage, module, cfg, files=(), data=None, workers=8, timeout=600,
+    CHUNK_BYTES = 32 * 1024 * 1024
+
+    def tlc(self, stage, module, cfg, files=(), data=None, **kw):
+        """Like _tlc_once, but a records.ndjson input larger than CHUNK_BYTES is judged in pieces
+        (TLC deserialises a whole file into memory; records are independent of each other in every
+        judge and trace module here: Init picks one record)."""
+        rp = (data or {}).get("records.ndjson")
+        if not rp or kw.get("simulate") or os.path.getsize(rp) <= self.CHUNK_BYTES:
+            return self._tlc_once(stage, module, cfg, files=files, data=data, **kw)
+        merged, n = None, 0
+        with open(rp) as fh:
+            while True:
+                lines = fh.readlines(self.CHUNK_BYTES)
+                if not lines:
+                    break
+                n += 1
+                cpath = os.path.join(self.dir, "chunk-%s-%d.ndjson" % (stage, n))
+                with open(cpath, "w") as out:
+                    out.writelines(lines)
+                d = dict(data)
+                d["records.ndjson"] = cpath
+                r = self._tlc_once("%s.%d" % (stage, n), module, cfg, files=files, data=d, **kw)
+                os.remove(cpath)
+                shutil.rmtree(os.path.join(self.dir, "tlc-%s.%d" % (stage, n), "records.ndjson"), ignore_errors=True)
+                try:
+                    os.remove(os.path.join(self.dir, "tlc-%s.%d" % (stage, n), "records.ndjson"))
+                except OSError:
+                    pass
+                if merged is None:
+                    merged = r
+                else:
+                    merged.generated += r.generated
+                    merged.distinct += r.distinct
+                    merged.depth = max(merged.depth, r.depth)
+                    merged.wall += r.wall
+                    merged.prints += r.prints
+                    bad_before = merged.timeout or merged.error or not merged.completed
+                    merged.completed = merged.completed and r.completed
+                    merged.timeout = merged.timeout or r.timeout
+                    if not bad_before and (r.timeout or r.error or not r.completed):
+                        merged.stdout_path, merged.rc = r.stdout_path, r.rc
+                    merged.error = merged.error or r.error
+                    merged.invariant = merged.invariant or r.invariant
+        return merged
+
+    def _tlc_once(self, stage, module, cfg, files=(), data=None, workers=8, timeout=600,
             simulate=None, depth=None, tags=("REJECT", "BEHAVIOUR", "CASE", "NOTE", "COVER"),
             heap="4g", extra=(), dfs=False, coverage=False, deadlock=None, xss="256m",
             generated=None):
